@@ -189,7 +189,22 @@ func TestForwarder(t *testing.T) {
 			}
 			envSnap := cc[0].Snaps[0]
 			startCalls := len(d.Calls())
-			ds, acked := deliver(t, d, subs[0], func() *message.Message { return envSnap.Msg() }, 4)
+			// the envelope may pick up metadata of its own on the forwarder topic (broker headers, publisher decorators):
+			// that is the envelope's, the relayed message is exactly what was wrapped
+			outer := map[string]string{}
+			for _, k := range rapid.SliceOfNDistinct(rapid.SampledFrom([]string{"x-broker-partition", "correlation_id", "a", ""}), 0, 2, rapid.ID[string]).Draw(t, "envelopeOwnMetadata") {
+				outer[k] = "outer-" + k
+			}
+			if len(outer) > 0 {
+				interesting = true
+			}
+			ds, acked := deliver(t, d, subs[0], func() *message.Message {
+				m := envSnap.Msg()
+				for k, v := range outer {
+					m.Metadata[k] = v
+				}
+				return m
+			}, 4)
 			if !acked {
 				t.Fatalf("violation: envelope still not relayed after %d deliveries although the destination stopped failing", len(ds))
 			}
